@@ -109,6 +109,13 @@ pub fn run_c13_case(p: &Program, cfg: &Config, rng: &mut crate::rng::Rng, max_n:
         intervals.truncate(3);
     }
     let total = n + failing as usize; // iterations including a failing last one
+    // half of the programs run the whole checkpoint exercise with exactly the branch capacity the
+    // exploration needs: a resumed run has the same budget as an uninterrupted one
+    let mut cfg = cfg.clone();
+    if !failing && t1.max_path >= 1 && rng.chance(1, 2) {
+        cfg.max_branches = t1.max_path;
+    }
+    let cfg = &cfg;
     'outer: for &interval in &intervals {
         // uninterrupted run with the checkpoint file present: identical to the run without it
         let _ = std::fs::remove_file(&file);
